@@ -222,7 +222,12 @@ def build_shared_mps_qtz_map(mod: fx.GraphModule,
 
     # each weakly connected component of the sharing graph must share the same quantizers
     sq_dict = {}
+    # visit the nodes of each component in graph order: the components are sets of fx.Node, whose
+    # iteration order depends on memory addresses, and the first features-defining node met
+    # decides which layer's `qinfo` the shared quantizers are built from
+    node_pos = {n: i for i, n in enumerate(mod.graph.nodes)}
     for c in nx.weakly_connected_components(sharing_graph):
+        c = sorted(c, key=lambda n: node_pos[n])
         sq_a = None
         sq_w = None
         # This ensures to work at every iteration with a 'fresh' dict
